@@ -114,6 +114,13 @@ func (BridgeMonitor) Post(e *Explorer, before, w *World, pre interface{}, ev *Ev
 		return
 	}
 	switch x := msgs[0].(type) {
+	case *oracletypes.MsgSubmitValue:
+		// no report is ever accepted on a withdrawal query (tipped or not): its aggregates are the bridge's own
+		for id := uint64(0); id <= 3; id++ {
+			if bytes.Equal(x.QueryData, BridgeQuery(false, id)) {
+				fail("withdrawal-query-reported", fmt.Sprintf("a report by %s on the withdrawal query of id %d was accepted", short(x.Creator), id))
+			}
+		}
 	case *bridgetypes.MsgClaimDepositsRequest:
 		claimer := sdk.MustAccAddressFromBech32(x.Creator)
 		wantMint := new(big.Int)
